@@ -179,7 +179,7 @@ inductive Body
   | nobody                                    -- `body == nil`
   | buffer                                    -- `body == r.buf`
   | stream (content : Bytes) (closer : Bool)  -- the payload reader, or the pipe the goroutine feeds
-  | deadPipe                                  -- the pipe, but nothing will ever write to it
+  | deadPipe                                  -- the pipe while no goroutine feeds it (never the final body: `build_never_hangs`)
 deriving Repr, DecidableEq
 
 /-- State after `DoneChoosingBodySource`. -/
@@ -196,9 +196,13 @@ inductive ChooseResult
   | nilProducerPanic
 deriving Repr
 
+/-- `r.isMultipart(mediaType) && (len(r.formFields) > 0 || len(r.fileFields) > 0)`: the pipe is opened —
+since the repair of F11d only when the multipart goroutine, which feeds it, is going to be started -/
+def opensPipe (i : Input) : Bool := isMultipart i && hasForm i
+
 /-- the initial value of `body`: nil, `r.buf`, or the pipe reader -/
 def initialBody (i : Input) : Body :=
-  if i.payload != .none || hasForm i then (if isMultipart i then .deadPipe else .buffer) else .nobody
+  if i.payload != .none || hasForm i then (if opensPipe i then .deadPipe else .buffer) else .nobody
 
 /-- `buildHTTP` from `r.buf = bytes.NewBuffer(nil)` to the label `DoneChoosingBodySource`. -/
 def choose (env : Env) (i : Input) : ChooseResult :=
@@ -241,7 +245,8 @@ def overrideInstalled (b : Body) : Bool :=
   | .deadPipe => true
   | _ => false
 
-/-- One `GetBody()` call; `none`: the call never returns (`io.Copy` from a pipe nobody writes to). -/
+/-- One `GetBody()` call; `none`: the call never returns (`io.Copy` from a pipe nobody writes to — what
+F11d was; `build_never_hangs` shows the repaired `choose` never leaves such a pipe as the body). -/
 def getBody (override : Bool) (st : St) : Option (St × Bytes) :=
   if !override then some (st, st.buf)                       -- getRequestBuffer
   else if st.copied then some (st, st.buf)
@@ -519,14 +524,14 @@ def specOk (sniff : Bytes → Bytes) (prod : Option (Option Bytes)) (i : Input) 
 `application/x-www-form-urlencoded; boundary=…` (pinned by TestBuildRequest_BuildHTTP_Files_URLEncoded).
 F11c: form fields only, under a media type that is neither the url-encoded one nor exactly
 `multipart/form-data` — a url-encoded body is sent under that media type.
-F11d: a value payload under exactly `multipart/form-data` with a producer registered for it — the
-body is the pipe nobody writes to. -/
+(F11d — a value payload under exactly `multipart/form-data` with a producer registered for it was sent
+as a pipe nobody writes to — is repaired: `opensPipe`; such inputs are ordinary `value` inputs now.) -/
 inductive Finding
-  | F11b | F11c | F11d
+  | F11b | F11c
 deriving Repr, DecidableEq
 
 def Finding.name : Finding → String
-  | .F11b => "F11b" | .F11c => "F11c" | .F11d => "F11d"
+  | .F11b => "F11b" | .F11c => "F11c"
 
 def known (env : Env) (i : Input) : Option Finding :=
   match kindOf i with
@@ -534,8 +539,6 @@ def known (env : Env) (i : Input) : Option Finding :=
   | .formOnly =>
     if i.mediaType != multipartLit && baseMediaType i.mediaType != urlencodedLit && (env.produce i.mediaType).isSome
     then some .F11c else none
-  | .value =>
-    if i.mediaType == multipartLit && (env.produce i.mediaType).bind id != none then some .F11d else none
   | _ => none
 
 /-! ## Driver entry -/
@@ -719,7 +722,9 @@ def agrees (m r : Result) : Bool :=
 
 def kindTag (i : Input) : String :=
   match kindOf i with
-  | .nil => "nil" | .value => "value"
+  | .nil => "nil"
+  -- a value under exactly multipart/form-data is the former F11d territory: shown apart in the histogram
+  | .value => (if i.mediaType == multipartLit then "value@multipart" else "value")
   | .reader _ => (match i.payload with | .readCloser _ => "readcloser" | _ => "reader")
   | .formOnly => "fields" | .withFiles => (if i.fields.isEmpty then "files" else "fields+files") | .mixed => "~payload+form"
 
